@@ -10,12 +10,15 @@
   1. `pow_enclosure`    Encl.log xc xe = some l → powT? (l·y) = some t → |X|^Y ∈ₛ t
      `pow_sign`         X^Y = (−1)^[X<0 ∧ Y odd integer] · |X|^Y     (finite operands on the general path)
      `tolerance_le`     the tolerance used by the code is ≥ the property's
+  3. `ok_close`         `.ok` ⇒ sign (−1)^y ∧ |r − x^y| ≤ (1+2·10^-3)·10^eT + (1+2·10^-14)·propTol·|x^y|
+     `undecided_cases`  when `judgePow` answers `.undecided`
   2. `bad_sound`        every `.bad` verdict of `judgePow` is `PowBad`: table mismatch on the shortcut cases, or
                         the power is beyond 10^±17000 and the result is not ±Inf / ±0 of the right sign, or
                         `PowViolation`: NaN, wrong sign, more than one ulp + tolerance away, zero / Inf /
                         finite although the power is (not) representable
 -/
 import D128.Proofs.EnclosurePow
+import D128.Proofs.EnclosureUndecided
 set_option autoImplicit false
 
 namespace Props.C18Oracle
@@ -56,5 +59,46 @@ theorem bad_finite (m : Mode) (xn : Bool) (xc : Nat) (xe : Int) (yn : Bool) (yc 
     (10 : ℝ) ^ (ulpExp |P|) + propTol xn xc xe yn yc ye * |P| < |X rn (rc + 1) re - P| ∨
     (10 : ℝ) ^ (Emax + 41) ≤ |P| ∨ |P| < (10 : ℝ) ^ (Emin - 40) :=
   pow_general_bad_sound m xn xc xe yn yc ye l _ t msg hs hl hy1 hy2 hp1 hp2 ht h
+
+/-- **`.ok` on a finite non-zero result** (enclosure path, tolerance of the code below 100 %): the result has the
+    sign `(−1)^y` and
+      |r − x^y| ≤ (1 + 2·10^-3)·10^eT + (1 + 2·10^-14)·propTol·|x^y|,
+    i.e. one unit in the last place (at the upper end of the enclosure) plus the property's tolerance, up to the
+    proved width of the enclosure. -/
+theorem ok_close (m : Mode) (xn : Bool) (xc : Nat) (xe : Int) (yn : Bool) (yc : Nat) (ye : Int) (l : I)
+    (rn : Bool) (rc : Nat) (re : Int) (t : Sci)
+    (hs : powSpecial m (.fin xn xc xe) (.fin yn yc ye) = none)
+    (hl : Encl.log (xc : ℚ) xe = some l) (hy1 : ¬ ye > 45) (hy2 : ¬ ye < -6300)
+    (hp1 : ¬ (powP l yn yc ye).lo > 40000) (hp2 : ¬ (powP l yn yc ye).hi < -40000)
+    (ht : powT? (powP l yn yc ye) = some t)
+    (hx1 : powExtra l (mag yc ye) ≤ 1)
+    (h : judgePow m (.fin xn xc xe) (.fin yn yc ye) (.fin rn (rc + 1) re) = .ok) :
+    let P := (X xn xc xe) ^ (X yn yc ye)
+    rn = powNeg xn yc ye ∧
+    |X rn (rc + 1) re - P| ≤
+      (1 + 2 / 10 ^ 3) * (10 : ℝ) ^ (eT t) + (1 + 2 / 10 ^ 14) * propTol xn xc xe yn yc ye * |P| :=
+  pow_ok_close m xn xc xe yn yc ye l rn rc re t hs hl hy1 hy2 hp1 hp2 ht hx1 h
+
+/-- the tolerance of the code exceeds the property's by at most 10^-40 relative -/
+theorem tolerance_ge (xn : Bool) (xc : Nat) (xe : Int) (yn : Bool) (yc : Nat) (ye : Int) (l : I)
+    (hc0 : xc ≠ 0) (hl : Encl.log (xc : ℚ) xe = some l) :
+    ((powExtra l (mag yc ye) : ℚ) : ℝ) ≤ (1 + 1 / 10 ^ 40) * propTol xn xc xe yn yc ye :=
+  powExtra_le (xn := xn) yn yc ye hc0 hl
+
+/-! ## what the oracle cannot decide -/
+
+/-- `judgePow` answers `.undecided` only outside the shortcut cases and only when: the certified logarithm of
+    the base fails (`Encl.log = none`, not observed), or the exponent of `y` is above 45 or below −6300, or `y·ln|x|`
+    lies within ±40000 but is enclosed too widely for the guarded `expI` (`powT? p = none`; this needs an enclosure
+    of `y·ln|x|` wider than ~5, i.e. a tolerance far above 100 %).  `withinUlps` never answers "enclosure not
+    positive".  (The first alternative — a non-finite operand with `powSpecial = none` — does not occur.) -/
+theorem undecided_cases (m : Mode) (x y r : Val) (w : String) (h : judgePow m x y r = .undecided w) :
+    powSpecial m x y = none ∧
+    ((x.isFin = false ∨ y.isFin = false) ∨
+     ∃ xn xc xe yn yc ye, x = .fin xn xc xe ∧ y = .fin yn yc ye ∧
+      (Encl.log (xc : ℚ) xe = none ∨ ye > 45 ∨ ye < -6300 ∨
+        ∃ l, Encl.log (xc : ℚ) xe = some l ∧ ¬ (powP l yn yc ye).lo > 40000 ∧
+          ¬ (powP l yn yc ye).hi < -40000 ∧ powT? (powP l yn yc ye) = none)) :=
+  judgePow_undecided m x y r w h
 
 end Props.C18Oracle
